@@ -3,7 +3,7 @@
    consequences for the spec decoder, the library decoder and the skip walker. *)
 From Coq Require Import List NArith ZArith Lia Bool Arith.
 From Coq Require Import ZifyN ZifyNat ZifyBool.
-From Verif Require Import Base.Outcome Wire.Item Gen.Consts Wire.CborFloat Wire.Cbor C10.CborSpec C10.CborConv Wire.CborProofs.
+From Verif Require Import Base.Outcome Wire.Item Gen.Consts Wire.CborFloat Wire.Cbor C10.CborSpec C10.CborConv Wire.CborProofs Wire.CborTime.
 Import ListNotations.
 Open Scope N_scope.
 
@@ -408,3 +408,77 @@ Qed.
 Lemma ext_lemma : forall (O : eopts) (t : N) (t' : wtree),
   t < 18446744073709551616 -> enc O (IExt t (ser t')) = ser (TTag (minw t) t t').
 Proof. intros. cbn [enc ser]. change baseTag with (6 * 32). rewrite enc_head_shead by lia. reflexivity. Qed.
+
+(* ------------------------------------------------------------------ *)
+(* the extended vocabulary (tag 0 = time): dec_enc including times written under TimeRFC3339 *)
+Definition norm_t (O : eopts) (D : dopts) (i : item) : item := go_of_t D (sdata_of O i).
+
+Lemma go_of_t_fnorm : forall D x, go_of_t D (fnorm x) = go_of_t D x.
+Proof.
+  intros D x. induction x using sdata_ind'.
+  - destruct x; try contradiction; try reflexivity.
+    cbn [fnorm]. destruct (prec =? 16) eqn:E1; [cbn [go_of_t]; rewrite E1; reflexivity |].
+    destruct (prec =? 32) eqn:E2; [cbn [go_of_t]; rewrite E1, E2; reflexivity | reflexivity].
+  - cbn [fnorm go_of_t]. rewrite map_map. f_equal. apply map_ext_in. intros y Hy. rewrite Forall_forall in H. apply H; assumption.
+  - cbn [fnorm go_of_t]. rewrite map_map. f_equal. apply map_ext_in. intros kv Hkv. rewrite Forall_forall in H.
+    destruct (H kv Hkv) as [H1 H2]. cbn [fst snd]. rewrite H1, H2. reflexivity.
+  - cbn [fnorm go_of_t]. rewrite IHx. destruct (t =? 0); [| reflexivity].
+    destruct x; try reflexivity. cbn [fnorm].
+    destruct (prec =? 16); [reflexivity |]. destruct (prec =? 32); reflexivity.
+Qed.
+
+Lemma dec_enc_t_lemma : forall (O : eopts) (D : dopts) (i : item) (rest : list N),
+  wf i -> plain i -> lib_supports_t D (tree_of O i) -> (tdepth_t D (tree_of O i) < maxdepth D)%Z ->
+  dec_naked D (fuel_for (enc O i ++ rest)) (enc O i ++ rest) = Ok (norm_t O D i, rest).
+Proof.
+  intros O D i rest Hw Hp Hs Hd. rewrite enc_ser by assumption. unfold norm_t.
+  rewrite <- (go_of_t_fnorm D (sdata_of O i)), <- tree_of_data by assumption. rewrite go_of_t_fnorm.
+  apply cbor_in_t_lemma; try assumption. apply tree_of_twf; assumption.
+Qed.
+
+(* on items the original vocabulary covers, norm_t is norm *)
+Lemma norm_t_norm : forall (O : eopts) (D : dopts) (i : item), wf i -> plain i ->
+  lib_supports D (tree_of O i) -> norm_t O D i = norm O D i.
+Proof.
+  intros O D i Hw Hp Hs. unfold norm_t, norm. destruct (compat_t D _ Hs) as (_ & C2 & _).
+  rewrite <- (go_of_t_fnorm D (sdata_of O i)), <- (go_of_fnorm D (sdata_of O i)).
+  rewrite <- tree_of_data by assumption. rewrite go_of_t_fnorm, go_of_fnorm. exact C2.
+Qed.
+
+Lemma str_tree_supp : forall (O : eopts) (D : dopts) (text : bool) (s : list N),
+  N.of_nat (length s) < 9223372036854775808 -> lib_supports_t D (str_tree O text s).
+Proof.
+  intros O D text s Hl. unfold str_tree.
+  assert (Hc : Forall (fun c : width * list N => N.of_nat (length (snd c)) < 9223372036854775808)
+                 (map (fun c => (minw (N.of_nat (length c)), c)) (chunks (length s) (chunk_len (length s)) s))).
+  { apply Forall_map. cbn [snd].
+    apply (chunks_Forall _ (fun l => (length l <= length s)%nat)).
+    - intros l n H. rewrite skipn_length. lia.
+    - intros l k H. rewrite firstn_length. lia.
+    - lia. }
+  destruct (eo_indef O); destruct text; cbn [lib_supports_t]; assumption.
+Qed.
+
+Lemma str_tree_text : forall (O : eopts) (text : bool) (s : list N), text_of (str_tree O text s) = Some s.
+Proof.
+  intros. unfold str_tree. destruct (eo_indef O); destruct text; cbn [text_of]; try reflexivity;
+    rewrite flat_map_map; cbn [snd]; rewrite chunks_concat by (apply chunk_len_pos || lia); reflexivity.
+Qed.
+
+(* a time.Time written under TimeRFC3339 (UTC, year 0..9999) is supported at any position and comes back
+   as the instant rounded to the microsecond (decodeTime rounds both wire forms); the zero time is nil *)
+Lemma time_rfc3339_lemma : forall (O : eopts) (D : dopts) (s : Z) (n : N),
+  eo_rfc3339 O = true -> year_ok s = true -> n < 1000000000 ->
+  lib_supports_t D (tree_of O (ITime s n)) /\ tdepth_t D (tree_of O (ITime s n)) = 0%Z /\
+  norm_t O D (ITime s n) =
+    (if (s =? zero_time_sec)%Z && (n =? 0) then INil else ITime (fst (round_us s n)) (snd (round_us s n))).
+Proof.
+  intros O D s n Hr Hy Hn. unfold norm_t. cbn [tree_of sdata_of]. unfold time_tree.
+  destruct ((s =? zero_time_sec)%Z && (n =? 0)).
+  - cbn. repeat split. lia.
+  - rewrite Hr. destruct (fmt_ok s n) as [_ Hlen].
+    cbn [lib_supports_t tdepth_t go_of_t N.eqb]. repeat split.
+    right. split; [reflexivity |]. split; [apply str_tree_supp; lia |].
+    rewrite str_tree_text. eexists. apply parse_rfc3339_fmt; assumption.
+    unfold time_item. rewrite parse_rfc3339_fmt by assumption. reflexivity.
+Qed.
